@@ -13,7 +13,7 @@ import (
 	gethCommon "github.com/ethereum/go-ethereum/common"
 )
 
-const bReps = 4
+const bReps = 8
 
 // Ethereum address pool: base addresses in several spellings accepted by gethCommon.IsHexAddress
 var ethBases = []string{
@@ -23,8 +23,36 @@ var ethBases = []string{
 	"f17f52151EbEF6C7334FAD080c5704D77216b732",
 }
 
+// flipCase flips the case of k random letters of the EIP-55 spelling: a valid address spelling in mixed case with a
+// wrong checksum (checksums are not verified by IsHexAddress / HexToAddress)
+func flipCase(rng *Rng, base string, k int) string {
+	b := []byte(ethAddrEIP55(base))
+	var letters []int
+	for i := 2; i < len(b); i++ {
+		if b[i] >= 'a' && b[i] <= 'f' || b[i] >= 'A' && b[i] <= 'F' {
+			letters = append(letters, i)
+		}
+	}
+	if k < 0 {
+		k = len(letters) / 2
+	}
+	for ; k > 0 && len(letters) > 0; k-- {
+		j := rng.Intn(len(letters))
+		i := letters[j]
+		letters = append(letters[:j], letters[j+1:]...)
+		b[i] ^= 0x20
+	}
+	return string(b)
+}
+
 func ethSpelling(rng *Rng, base string) string {
-	switch rng.Intn(6) {
+	switch rng.Intn(9) {
+	case 6:
+		return flipCase(rng, base, 1)
+	case 7:
+		return flipCase(rng, base, 2)
+	case 8:
+		return flipCase(rng, base, -1)
 	case 0:
 		return "0x" + strings.ToLower(base)
 	case 1:
@@ -298,6 +326,22 @@ func directedCredit() []hist {
 		h.add("tx claim 1 1 81 %s 5 5 cusdc %s 1", snd0, tok1)
 		hs = append(hs, h)
 	}
+	// symbols made of JSON-special text: every validator reports "1 unit of <symbol>"; what is credited (nothing: the
+	// pegged denomination is invalid) is judged against the contents of the claim messages
+	{
+		var h hist
+		stdSetup(&h, []int64{50, 50}, nil, "0,1")
+		for i, sym := range []string{
+			`usdt","amount":"1000000000000`,
+			`usdt","cosmos_receiver":"` + userAddr(6).String(),
+			`usdt","amount":"5","cosmos_receiver":"` + userAddr(6).String(),
+			`usdt","claim_type":1,"x":"`, `usdt"`, `us\\dt`, `{usdt}`, `usdt,usdt`, "usdt",
+		} {
+			h.add("tx claim 0 1 %d %s 4 1 %s %s 2", 85+i, snd0, encodeSym(sym), tok1)
+			h.add("tx claim 1 1 %d %s 4 1 %s %s 2", 85+i, snd0, encodeSym(sym), tok1)
+		}
+		hs = append(hs, h)
+	}
 	return hs
 }
 
@@ -321,6 +365,30 @@ func directedPeg() []hist {
 		h.add("tx lock 3 1 %s 10 rowan %s", eip, gasCost)
 		h.add("tx bl 3 -")
 		h.add("tx lock 3 1 %s 10 rowan %s", eip, gasCost)
+		hs = append(hs, h)
+	}
+	// mixed-case spellings with a wrong checksum: the EIP-55 spelling with one, two, half of its letters flipped names the
+	// same address; blacklisted under one spelling it is blacklisted under all, whoever uses which
+	{
+		var h hist
+		stdSetup(&h, []int64{50, 50}, nil, "0,1")
+		h.add(claimLine(0, 1, 1, snd0, 3, "100000", "usdc", tok1, 2))
+		h.add(claimLine(1, 1, 1, snd0, 3, "100000", "usdc", tok1, 2))
+		rg := NewRng(7)
+		f1, f2, fh := flipCase(rg, ethBases[3], 1), flipCase(rg, ethBases[3], 2), flipCase(rg, ethBases[3], -1)
+		h.add("tx bl 3 %s", eip)
+		for _, r := range []string{f1, f2, fh, eip} {
+			h.add("tx lock 3 1 %s 10 rowan %s", r, gasCost)
+			h.add("tx burn 3 1 %s 10 cusdc %s", r, gasCost)
+		}
+		h.add("tx bl 3 %s", f1)
+		for _, r := range []string{eip, low, f2, fh} {
+			h.add("tx lock 3 1 %s 10 rowan %s", r, gasCost)
+		}
+		h.add("tx bl 3 %s,%s", fh, f2)
+		h.add("tx lock 3 1 %s 10 rowan %s", bare, gasCost)
+		h.add("tx bl 3 -")
+		h.add("tx lock 3 1 %s 10 rowan %s", f1, gasCost)
 		hs = append(hs, h)
 	}
 	// fee cases: receiver unset / set; burning ceth itself; locking ceth with the receiver unset; pause; rescue
@@ -487,7 +555,7 @@ func randomHistory(rng *Rng, profile string) hist {
 		e.chain = []int64{1, 1, 3, 12}[rng.Intn(4)]
 		e.nonce = int64(rng.Intn(30))
 		e.sender = ethSpelling(rng, ethBases[1])
-		nc := 1 + rng.Intn(3)
+		nc := 1 + rng.Intn(4) // 1..4 contents per event
 		for j := 0; j < nc; j++ {
 			recv := 3 + rng.Intn(bNAccts-3)
 			amount := rng.Amount(100).String()
@@ -516,6 +584,8 @@ func randomHistory(rng *Rng, profile string) hist {
 					amount = new(big.Int).Sub(bigPow(2, 256), big.NewInt(int64(1+rng.Intn(3)))).String()
 				case 4:
 					sym = symPool[rng.Intn(len(symPool))]
+				case 6, 7:
+					sym = jsonSym(rng)
 				case 5:
 					typ = rng.Intn(3)
 				}
@@ -527,6 +597,7 @@ func randomHistory(rng *Rng, profile string) hist {
 		}
 	}
 	nops := 10 + rng.Intn(30)
+	disagree := rng.Chance(1, 4)
 	pClaim, pWl, pVal := 70, 12, 8
 	if profile == "peg" {
 		pClaim, pWl, pVal = 25, 3, 2
@@ -570,8 +641,8 @@ func randomHistory(rng *Rng, profile string) hist {
 		case r < pClaim:
 			e := evs[rng.Intn(nev)]
 			c := e.contents[0]
-			if rng.Chance(1, 4) {
-				c = e.contents[rng.Intn(len(e.contents))]
+			if rng.Chance(1, 4) || disagree {
+				c = e.contents[rng.Intn(len(e.contents))] // validators disagree: several contents on one prophecy
 			}
 			v := rng.Intn(nv)
 			if rng.Chance(1, 25) {
@@ -603,6 +674,35 @@ func randomHistory(rng *Rng, profile string) hist {
 	return h
 }
 
+// jsonSym draws a claim symbol made of JSON-special text: quotes, backslashes, braces, commas, and text that would read as
+// further members of the claim-content object (amount, cosmos_receiver, claim_type) if it were not escaped.  Encoded
+// for the line protocol.
+func jsonSym(rng *Rng) string {
+	base := []string{"usdt", "eth", "usdc", "dai"}[rng.Intn(4)]
+	var s string
+	switch rng.Intn(9) {
+	case 0:
+		s = base + `","amount":"1000000000000`
+	case 1:
+		s = base + `","cosmos_receiver":"` + userAddr(3+rng.Intn(bNAccts-3)).String()
+	case 2:
+		s = base + `","amount":"` + rng.Amount(60).String() + `","cosmos_receiver":"` + userAddr(3+rng.Intn(bNAccts-3)).String()
+	case 3:
+		s = base + `","claim_type":1,"x":"`
+	case 4:
+		s = base + `"`
+	case 5:
+		s = base + `\`
+	case 6:
+		s = "{" + base + "}"
+	case 7:
+		s = base + "," + base
+	default:
+		s = base + `\","amount":"7`
+	}
+	return encodeSym(s)
+}
+
 // randContent draws a claim content "recv amount symbol token type" (mostly creditable)
 func randContent(rng *Rng, wild bool) string {
 	recv := 3 + rng.Intn(bNAccts-3)
@@ -625,6 +725,8 @@ func randContent(rng *Rng, wild bool) string {
 			typ = rng.Intn(3)
 		case 4:
 			sym = symPool[rng.Intn(len(symPool))]
+		case 5:
+			sym = jsonSym(rng)
 		}
 	}
 	if strings.ToLower(sym) == "eth" {
@@ -868,6 +970,7 @@ func runBridge(profile string, directed func() []hist) Family {
 				for _, l := range h.lines {
 					x.exec(l)
 				}
+				x.endOfExecution(r)
 			}
 		}
 		out.Extra["histories"] = len(hs)
